@@ -89,6 +89,27 @@ class C05(Property):
                 # refills (BOM probe, line scan, the look-ahead byte of an UTF-16LE line feed) must retry (seeds C05-i, C10-j)
                 if len(data) <= 400:
                     cases.append(Case("framesched " + " ".join("i c%02x" % b for b in data), tags=("interrupted-bytewise-" + enc,)))
+        # one physical line longer than any plausible internal buffer (64 KiB, 1 MiB of code units): a long `//` comment, a long
+        # record, a long junk line in front of the first section - a reader that caps a line splits it, and the rest of a comment
+        # becomes records (seed C05-k); in UTF-8 and UTF-16
+        for n in ([65530, 65536, 70001, 300000] if tier == "quick" else [32768, 65530, 65535, 65536, 65537, 70001, 131072, 300000, 1100000]):
+            for enc in ("utf8", "utf16le", "utf16be"):
+                if enc != "utf8" and n > 70001 and tier == "quick":
+                    continue
+                for tag, text in (("comment", "osu file format v9\n[Metadata]\nTitle:real\n//" + "x" * n + " Title:injected\nArtist:after\n"),
+                                  ("record", "[Metadata]\nTags:" + "tag " * (n // 4) + "\nTitle:after\n"),
+                                  ("preamble", "y" * n + "[General]\n[Editor]\nGridSize: 4\n")):
+                    cases.append(Case("frame " + hexs(encodings(text)[enc]), tags=("long-line-" + tag, enc)))
+        # text handed over as a `&str` that begins with U+FEFF (what reading a BOM'd file into a String yields): the BOM is detected
+        # and skipped on this entry point as on every other (seed C05-l)
+        for _ in range(60 if tier == "quick" else 2000):
+            k = rng.choice([1, 2, 3, 5, 8])
+            text = join_lines([t for _, t in [rng.choice(full) for _ in range(k)]], rng=rng)
+            try:
+                data = ("\ufeff" + text).encode("utf-8")
+            except UnicodeEncodeError:
+                continue
+            cases.append(Case("fromstr " + hexs(data), tags=("from_str-with-bom",)))
         for f in bundled_files():
             data = open(f, "rb").read()
             cases.append(Case("frame " + hexs(data), tags=("bundled",)))
